@@ -141,4 +141,33 @@ return ok
         for sh, c, d in QUICK:
             if d == "dk":
                 out.append(rule_case(sh, c, d, L))
+    # documents whose containers are dict / list subclasses and whose strings are str subclasses (what config / round-trip
+    # YAML loaders hand out): selection, verdict and failure paths as for plain containers
+    for cid, PT, CT in [
+        ("M/x", "(('map', NULL), ('prim', 'x'))", "V('greater_than', t1)"),
+        ("jobs/L/M", "(('prim', 'jobs'), ('list', NULL), ('map', NULL))", "('or', V('is_instance', str), V('greater_than', t1))"),
+        ("X/X", "(('mol', NULL, NULL, NULL), ('mol', NULL, NULL, NULL))", "leaf('value', 'dtype', 'in_', [int, str])"),
+        ("root", "()", "V('keys_contain', 'jobs')"),
+    ]:
+        body = f"""
+import collections
+class Seq(list):
+    pass
+class Quoted(str):
+    pass
+PT = {PT}
+CT = {CT}
+doc = collections.OrderedDict([('a', collections.OrderedDict([('x', u1), ('y', Quoted('q'))])), ('b', collections.defaultdict(int, {{'x': u2}})),
+                               ('jobs', Seq([collections.OrderedDict(n=u1), {{'n': Quoted('s'), 'x': u2}}, Seq([u2])])), ('c', 7)])
+rule = Rule(build_path(PT), build_cond(CT))
+t = rule.test(doc)
+valid, tested, fails = ref_rule(PT, CT, doc)
+ok = same('is_valid', t.is_valid, valid) and same('tested', t.tested, tested) and same('num_failures', t.num_failures, len(fails))
+ok = ok and same('failing paths', tx([tuple(f.path) for f in t.failures]), tx([cp for _, cp in fails]))
+ok = ok and note('failure values are the failing nodes', len(t.failures) == len(fails) and all(f.value is v or cp == () for f, (v, cp) in zip(t.failures, fails)))
+v = Schema([rule]).validate(doc)
+ok = ok and same('schema verdict', (v.is_valid, v.num_failures), (valid, len(fails)))
+return ok
+"""
+        out.append(mk_case(f"c05.subclass_docs.{cid}", [("t1", "int"), ("u1", U), ("u2", "int")], body, pre=[f"BU({L}, t1, u1, u2)"], stubs=["sym_repr"]))
     return out
